@@ -4,9 +4,9 @@
    every number of components k, arbitrary square F, arbitrary Q, arbitrary
    exogenous function u (applied to the whole n x k matrix of means). *)
 Require Import ZArith QArith List Bool.
-Require Import BFL.Ops BFL.ListOps BFL.C02_Model.
+Require Import BFL.Ops BFL.ListOps BFL.C02_Model BFL.C02_Entry.
 From mathcomp Require Import all_ssreflect all_algebra.
-Require Import BFL.MxOps BFL.LinAlg BFL.C02_Proofs BFL.ListOpsCorrect BFL.C02_Transport.
+Require Import BFL.MxOps BFL.LinAlg BFL.C02_Proofs BFL.ListOpsCorrect BFL.C02_Transport BFL.C02_TransportEntry.
 Import GRing.Theory.
 Local Open Scope ring_scope.
 
@@ -110,27 +110,179 @@ Theorem C02_skipped_identity (exo : option (M O n k -> M O n k)) sp ss se (prev 
   sp || ss -> gaussian_predict Ft Q exo sp ss se prev old = prev.
 Proof. exact: kfp_skipped. Qed.
 
+(* ---- the layout of the returned object ----
+   The prediction does not size its output (no resize in predict / predictStep):
+   a step that is not skipped leaves the descriptors of the output object as they
+   were ... *)
+Theorem C02_layout_kept (exo : option (M O n k -> M O n k)) (prev old : gmix O n k) :
+  gm_layout (kf_predict Ft Q exo prev old) = gm_layout old.
+Proof. exact: kfp_layout_kept. Qed.
+
+(* ... so on an output object with the component count, dim and dim_covariance of the
+   input - whatever its linear/circular split, quaternion flag or noise size - the
+   predicted mixture reports the component count and sizes of the input belief *)
+Theorem C02_layout_of_input (exo : option (M O n k -> M O n k)) (prev old : gmix O n k) :
+  gl_same_shape (gm_layout old) (gm_layout prev) ->
+  [/\ gl_components (gm_layout (kf_predict Ft Q exo prev old)) = gl_components (gm_layout prev),
+      gl_dim (gm_layout (kf_predict Ft Q exo prev old)) = gl_dim (gm_layout prev) &
+      gl_dim_cov (gm_layout (kf_predict Ft Q exo prev old)) = gl_dim_cov (gm_layout prev)].
+Proof. exact: kfp_layout_of_input. Qed.
+
+(* with the flags: a skipped step reports the descriptors of the input, whatever the
+   output object was; any other step those of the output object *)
+Theorem C02_layout_flags (exo : option (M O n k -> M O n k)) sp ss se (prev old : gmix O n k) :
+  gm_layout (gaussian_predict Ft Q exo sp ss se prev old) =
+  if sp || ss then gm_layout prev else gm_layout old.
+Proof. exact: kfp_layout_flags. Qed.
+
+(* descriptors and storage of the returned object agree (one covariance and one weight
+   per reported component, reported sizes = actual sizes), for every flag combination *)
+Theorem C02_layout_consistent (exo : option (M O n k -> M O n k)) sp ss se (prev old : gmix O n k) :
+  gm_shaped prev -> gm_shaped old -> gm_shaped (gaussian_predict Ft Q exo sp ss se prev old).
+Proof. exact: kfp_shaped. Qed.
+
+(* the whole returned object at once (means, every covariance, weights, descriptors) *)
+Theorem C02_whole_object (exo : option (M O n k -> M O n k)) (prev old : gmix O n k) :
+  length (gm_covs old) = length (gm_covs prev) ->
+  kf_predict Ft Q exo prev old =
+  mkGmix (O:=O)
+    (match exo with
+     | Some u => (Ft *m gm_means prev + u (gm_means prev) : 'M[F]_(n,k))
+     | None => Ft *m gm_means prev
+     end)
+    (List.map (kf_predict_cov Ft Q) (gm_covs prev)) (gm_weights old) (gm_layout old).
+Proof. exact: kfp_whole. Qed.
+
+(* the spec function evaluated by the violation search (kf_spec, extracted as c02_spec)
+   is component i of the model, for the affine exogenous model of the harness or none *)
+Theorem C02_spec_is_model (e : option (M O n n * M O n 1)) (prev old : gmix O n k) (i : nat) dm dc :
+  (i < k)%N -> (i < length (gm_covs prev))%coq_nat ->
+  (gm_mean_i (kf_predict Ft Q (affine_exo_opt e) prev old) i,
+   List.nth i (gm_covs (kf_predict Ft Q (affine_exo_opt e) prev old)) dc) =
+  List.nth i (kf_spec Ft Q e (gm_means prev) (gm_covs prev)) (dm, dc).
+Proof. exact: kfp_model_is_spec. Qed.
+
 End C02.
 
-(* The tie between the two instances of the one model, proved: the prediction
-   step executed at the LIST instance (the one that is extracted and run
-   against the library), with the scalars of any realFieldType, returns a
-   mixture that represents (well-formed lists, same entries, same weights) the
-   mixture the MathComp instance returns - for every dimension, component
-   count, skip-flag combination and exogenous model that respects the
-   representation.  Together with the theorems above this makes the executed
-   model exact up to rounding. *)
-Theorem C02_executed_model_is_theorem_model (F : realFieldType) (tr : Transc F)
-        (sq : forall n, 'M[F]_n -> 'M[F]_n) (eg : forall n, 'M[F]_n -> 'M[F]_(n,1))
-        n k (lF lQ : lmxF F) (Fm Q : 'M[F]_n)
+(* ---- one prediction object, several calls: time-varying model, flags and model
+   replaced between the calls (kf_predict_seq, extracted as c02_seq) ---- *)
+Section C02_sequences.
+Variable F : realFieldType.
+Variable tr : Transc F.
+Variable sq : forall n, 'M[F]_n -> 'M[F]_n.
+Variable eg : forall n, 'M[F]_n -> 'M[F]_(n,1).
+Let O := MxMat tr sq eg.
+
+(* the answer to call s is the step on the inputs of call s ... *)
+Theorem C02_seq_stepwise (calls : list (kf_call O)) (s : nat) (d : kf_call O) :
+  List.nth s (kf_predict_seq calls) (kf_call_run d) = kf_call_run (List.nth s calls d).
+Proof. exact: kf_seq_nth. Qed.
+
+(* ... whatever was asked before and is asked after it *)
+Theorem C02_seq_no_hidden_memory (calls1 : list (kf_call O)) (c : kf_call O) (calls2 : list (kf_call O)) :
+  kf_predict_seq (calls1 ++ c :: calls2) = kf_predict_seq calls1 ++ kf_call_run c :: kf_predict_seq calls2.
+Proof. exact: kf_seq_app. Qed.
+
+(* ... with the matrices the model holds at that call *)
+Theorem C02_call_time_varying_cov (c : kf_call O) (i : nat) d :
+  ~~ kc_sp c -> ~~ kc_ss c -> (i < length (gm_covs (kc_prev c)))%coq_nat ->
+  (List.nth i (gm_covs (kr_mix (kf_call_run c))) d : 'M[F]_(kc_n c)) =
+  kc_F c *m List.nth i (gm_covs (kc_prev c)) d *m (kc_F c)^T + kc_Q c.
+Proof. exact: kf_call_cov. Qed.
+
+Theorem C02_call_time_varying_means (c : kf_call O) :
+  ~~ kc_sp c -> ~~ kc_ss c ->
+  (gm_means (kr_mix (kf_call_run c)) : 'M[F]_(kc_n c, kc_k c)) =
+  match kc_exo c, kc_se c with
+  | Some u, false => kc_F c *m gm_means (kc_prev c) + u (gm_means (kc_prev c))
+  | _, _ => kc_F c *m gm_means (kc_prev c)
+  end.
+Proof. exact: kf_call_means. Qed.
+
+Theorem C02_call_skipped (c : kf_call O) :
+  kc_sp c || kc_ss c -> kr_mix (kf_call_run c) = kc_prev c.
+Proof. exact: kf_call_skipped. Qed.
+
+End C02_sequences.
+
+(* The tie between the two instances of the one model, proved for EVERY extracted
+   entry point (C02_Entry.v; C02_Extract.v extracts exactly these): run on lists with
+   the scalars of any realFieldType, each returns a representation (well-formed
+   lists, same entries, same weights, same descriptors) of what the MathComp
+   instance - the one the theorems above are about - returns, for every dimension,
+   component count, skip-flag combination, with or without the harness' affine
+   exogenous model u(X) = B X + c 1^T.  What remains between the executed model and
+   the theorems is rounding. *)
+Section C02_executed.
+Variable F : realFieldType.
+Variable tr : Transc F.
+Variable sq : forall n, 'M[F]_n -> 'M[F]_n.
+Variable eg : forall n, 'M[F]_n -> 'M[F]_(n,1).
+Let S := FOps tr.
+Let OM := MxMat tr sq eg.
+
+(* c02_run = GaussianPrediction::predict: means, covariances, weights, descriptors *)
+Theorem C02_executed_model_is_theorem_model n k (lF lQ : lmxF F) (Fm Q : 'M[F]_n)
+        (le : option (lmxF F * lmxF F)) (me : option ('M[F]_n * 'cV[F]_n)) (sp ss se : bool)
+        (rprev rold : rawmix S) (prevm oldm : gmix OM n k) :
+  @repr F n n lF Fm -> @repr F n n lQ Q -> repr_aff le me ->
+  repr_raw rprev prevm -> repr_raw rold oldm ->
+  repr_raw (c02_run S n k lF lQ le sp ss se rprev rold)
+           (gaussian_predict (O:=OM) Fm Q (affine_exo_opt (O:=OM) me) sp ss se prevm oldm).
+Proof. exact: c02_run_transport. Qed.
+
+(* a skipped call does not look at the output object it is given: it need not represent
+   anything (default-constructed, other component count / dimension / layout) ... *)
+Theorem C02_executed_skipped_ignores_output_object n k (lF lQ : lmxF F) (Fm Q : 'M[F]_n)
+        le (me : option (M OM n k -> M OM n k)) (sp ss se : bool)
+        (rprev rold : rawmix S) (prevm oldm : gmix OM n k) :
+  sp || ss -> repr_raw rprev prevm ->
+  repr_raw (c02_run S n k lF lQ le sp ss se rprev rold)
+           (gaussian_predict (O:=OM) Fm Q me sp ss se prevm oldm).
+Proof. exact: c02_run_skipped_transport. Qed.
+
+(* ... and returns the belief it was given, for any scalars (floats included) *)
+Theorem C02_executed_skipped_is_identity (S' : SOps) n k (lF lQ : lmx S') e sp ss se (prev old : rawmix S') :
+  sp || ss -> c02_run S' n k lF lQ e sp ss se prev old = prev.
+Proof. exact: c02_run_skipped. Qed.
+
+(* c02_propagate = LinearStateModel::propagate, all branches *)
+Theorem C02_executed_propagate_is_theorem_propagate n k (lF : lmxF F) (Fm : 'M[F]_n)
+        (le : option (lmxF F * lmxF F)) (me : option ('M[F]_n * 'cV[F]_n)) (ss se : bool)
+        (lcur lold : lmxF F) (cur old : 'M[F]_(n,k)) :
+  @repr F n n lF Fm -> repr_aff le me -> @repr F n k lcur cur -> @repr F n k lold old ->
+  @repr F n k (c02_propagate S n k lF le ss se lcur lold)
+              (lin_propagate (O:=OM) Fm (affine_exo_opt (O:=OM) me) ss se cur old).
+Proof. exact: c02_propagate_transport. Qed.
+
+(* c02_spec = the component-by-component spec of the violation search *)
+Theorem C02_executed_spec_is_theorem_spec n k (lF lQ : lmxF F) (Fm Q : 'M[F]_n)
+        (le : option (lmxF F * lmxF F)) (me : option ('M[F]_n * 'cV[F]_n))
+        (lmeans : lmxF F) (means : 'M[F]_(n,k)) (lcovs : list (lmxF F)) (covs : list 'M[F]_n) :
+  @repr F n n lF Fm -> @repr F n n lQ Q -> repr_aff le me -> @repr F n k lmeans means -> repr_covs lcovs covs ->
+  List.Forall2 (@repr_comp F n) (c02_spec S n k lF lQ le lmeans lcovs) (kf_spec (O:=OM) Fm Q me means covs).
+Proof. exact: c02_spec_transport. Qed.
+
+(* c02_seq = one object driven through several calls (per-call matrices, exogenous
+   parameters, flags, dimensions, component counts) *)
+Theorem C02_executed_sequence_is_theorem_sequence (rcs : list (c02_call S)) (cms : list (kf_call OM)) :
+  List.Forall2 (repr_call (sq:=sq) (eg:=eg)) rcs cms ->
+  List.Forall2 (repr_ret (sq:=sq) (eg:=eg)) (c02_seq S rcs) (kf_predict_seq cms).
+Proof. exact: c02_seq_transport. Qed.
+
+(* the core step for an arbitrary exogenous function respecting the representation
+   (the statement the other properties' transports build on) *)
+Theorem C02_executed_step_is_theorem_step n k (lF lQ : lmxF F) (Fm Q : 'M[F]_n)
         (ul : option (lmxF F -> lmxF F)) (um : option ('M[F]_(n,k) -> 'M[F]_(n,k)))
-        (prevl oldl : gmix (ListMat (FOps tr) (fun _ X => X) (fun _ X => X)) n k)
-        (prevm oldm : gmix (MxMat tr sq eg) n k) (sp ss se : bool) :
+        (prevl oldl : gmix (ListMat S (fun _ X => X) (fun _ X => X)) n k)
+        (prevm oldm : gmix OM n k) (sp ss se : bool) :
   @repr F n n lF Fm -> @repr F n n lQ Q -> repr_exo ul um ->
   repr_gmix prevl prevm -> repr_gmix oldl oldm ->
-  repr_gmix (gaussian_predict (O:=ListMat (FOps tr) (fun _ X => X) (fun _ X => X)) (n:=n) (k:=k) lF lQ ul sp ss se prevl oldl)
-            (gaussian_predict (O:=MxMat tr sq eg) Fm Q um sp ss se prevm oldm).
+  repr_gmix (gaussian_predict (O:=ListMat S (fun _ X => X) (fun _ X => X)) (n:=n) (k:=k) lF lQ ul sp ss se prevl oldl)
+            (gaussian_predict (O:=OM) Fm Q um sp ss se prevm oldm).
 Proof. exact: kf_predict_transport. Qed.
+
+End C02_executed.
 
 (* non-vacuity: PSD premises are satisfiable in every dimension, including by
    singular matrices *)
@@ -140,8 +292,9 @@ Proof. by split; [exact: psd0 | apply: spd_psd; exact: spd1]. Qed.
 
 (* the executable instance of the same model over exact rationals: 2 states,
    2 components, singular Q, exogenous model u(X) = B X + c 1^T; the output
-   object held unrelated content.  Means are F m_i + B m_i + c, covariances
-   F P_i F^T + Q, weights those of the output object. *)
+   object held unrelated content and another linear/circular split
+   (input: 1 linear + 1 circular, output object: 2 linear).  Means are F m_i + B m_i + c, covariances
+   F P_i F^T + Q, weights and descriptors those of the output object. *)
 Definition QM := ListMat QOps (fun _ A => A) (fun _ A => A).
 Example C02_concrete_Q :
   let Fm := [:: [:: 1#1; 1#2]; [:: 0#1; 1#1]]%Q in
@@ -150,16 +303,49 @@ Example C02_concrete_Q :
   let c := [:: [:: 1#3]; [:: -1#1]]%Q in
   let prev := @mkGmix QM 2 2 [:: [:: 1#1; -2#1]; [:: 3#1; 1#2]]%Q
                 [:: [:: [:: 2#1; 1#1]; [:: 1#1; 3#1]]; [:: [:: 1#1; 0#1]; [:: 0#1; 0#1]]]%Q
-                [:: 1#4; 3#4]%Q in
+                [:: 1#4; 3#4]%Q (mkGlayout 2 1 1 false 0) in
   let old := @mkGmix QM 2 2 [:: [:: 7#1; 7#1]; [:: 7#1; 7#1]]%Q
                 [:: [:: [:: 9#1; 9#1]; [:: 9#1; 9#1]]; [:: [:: 9#1; 9#1]; [:: 9#1; 9#1]]]%Q
-                [:: 1#8; 7#8]%Q in
+                [:: 1#8; 7#8]%Q (mkGlayout 2 2 0 false 0) in
   let r := @kf_predict QM 2 2 Fm Qm (Some (@affine_exo QM 2 2 B c)) prev old in
   qmx_eqb (gm_means r) [:: [:: 35#6; -11#12]; [:: 4#1; -9#2]]%Q
   && qmx_eqb (List.nth 0 (gm_covs r) [::]) [:: [:: 4#1; 3#1]; [:: 3#1; 4#1]]%Q
   && qmx_eqb (List.nth 1 (gm_covs r) [::]) [:: [:: 5#4; 1#2]; [:: 1#2; 1#1]]%Q
   && qrow_eqb (gm_weights r) [:: 1#8; 7#8]%Q
+  && gl_same_shape (gm_layout old) (gm_layout prev)
+  && (Nat.eqb (gl_components (gm_layout r)) 2 && Nat.eqb (gl_dim (gm_layout r)) 2 && Nat.eqb (gl_dim_linear (gm_layout r)) 2)
   && qmx_eqb (gm_means (@kf_predict QM 2 2 Fm Qm None prev old)) [:: [:: 5#2; -7#4]; [:: 3#1; 1#2]]%Q
+  = true.
+Proof. vm_compute. reflexivity. Qed.
+
+(* the extracted entry points themselves over exact rationals: (1) a skipped call handed a
+   default-constructed output object (1 component, dimension 1) returns the 2-component
+   belief, descriptors included; (2) one object, two calls: first F1 (2 states), then - the
+   model replaced - F2 (1 state, with exogenous input): each answer uses its own call's matrices *)
+Example C02_entry_points_Q :
+  let Fm := [:: [:: 1#1; 1#2]; [:: 0#1; 1#1]]%Q in
+  let Qm := [:: [:: 1#4; 1#2]; [:: 1#2; 1#1]]%Q in
+  let prev : rawmix QOps := ([:: [:: 1#1; -2#1]; [:: 3#1; 1#2]]%Q,
+                [:: [:: [:: 2#1; 1#1]; [:: 1#1; 3#1]]; [:: [:: 1#1; 0#1]; [:: 0#1; 0#1]]]%Q,
+                [:: 1#4; 3#4]%Q, mkGlayout 2 1 1 false 0) in
+  let dflt : rawmix QOps := ([:: [:: 0#1]]%Q, [:: [:: [:: 0#1]]]%Q, [:: 1#1]%Q, mkGlayout 1 1 0 false 0) in
+  let old : rawmix QOps := ([:: [:: 7#1; 7#1]; [:: 7#1; 7#1]]%Q,
+                [:: [:: [:: 9#1; 9#1]; [:: 9#1; 9#1]]; [:: [:: 9#1; 9#1]; [:: 9#1; 9#1]]]%Q,
+                [:: 1#8; 7#8]%Q, mkGlayout 2 2 0 false 0) in
+  let skipped := c02_run QOps 2 2 Fm Qm None false true false prev dflt in
+  let prev1 : rawmix QOps := ([:: [:: 3#1]]%Q, [:: [:: [:: 2#1]]]%Q, [:: 1#1]%Q, mkGlayout 1 0 1 false 0) in
+  let old1 : rawmix QOps := ([:: [:: 5#1]]%Q, [:: [:: [:: 5#1]]]%Q, [:: 1#1]%Q, mkGlayout 1 1 0 false 0) in
+  let calls := [:: @mkRawCall QOps 2 2 Fm Qm None false false false prev old;
+                   @mkRawCall QOps 1 1 [:: [:: 1#2]]%Q [:: [:: 1#3]]%Q (Some ([:: [:: 1#1]]%Q, [:: [:: -1#1]]%Q)) false false false prev1 old1] in
+  let rs := c02_seq QOps calls in
+  let r0 := List.nth 0 rs dflt in let r1 := List.nth 1 rs dflt in
+  qmx_eqb skipped.1.1.1 prev.1.1.1 && Nat.eqb (gl_components skipped.2) 2 && Nat.eqb (gl_dim_circular skipped.2) 1
+  && Nat.eqb (length skipped.1.1.2) 2
+  && qmx_eqb r0.1.1.1 [:: [:: 5#2; -7#4]; [:: 3#1; 1#2]]%Q
+  && qmx_eqb (List.nth 0 r0.1.1.2 [::]) [:: [:: 4#1; 3#1]; [:: 3#1; 4#1]]%Q
+  && qmx_eqb r1.1.1.1 [:: [:: 7#2]]%Q                      (* 1/2*3 + (1*3 - 1) *)
+  && qmx_eqb (List.nth 0 r1.1.1.2 [::]) [:: [:: 5#6]]%Q      (* 1/2*2*1/2 + 1/3 *)
+  && Nat.eqb (gl_dim_linear r1.2) 1
   = true.
 Proof. vm_compute. reflexivity. Qed.
 
@@ -177,4 +363,21 @@ Print Assumptions C02_frame_weights.
 Print Assumptions C02_frame_covs_beyond.
 Print Assumptions C02_propagate_branches.
 Print Assumptions C02_skipped_identity.
+Print Assumptions C02_layout_kept.
+Print Assumptions C02_layout_of_input.
+Print Assumptions C02_layout_flags.
+Print Assumptions C02_layout_consistent.
+Print Assumptions C02_whole_object.
+Print Assumptions C02_spec_is_model.
+Print Assumptions C02_seq_stepwise.
+Print Assumptions C02_seq_no_hidden_memory.
+Print Assumptions C02_call_time_varying_cov.
+Print Assumptions C02_call_time_varying_means.
+Print Assumptions C02_call_skipped.
 Print Assumptions C02_executed_model_is_theorem_model.
+Print Assumptions C02_executed_skipped_ignores_output_object.
+Print Assumptions C02_executed_skipped_is_identity.
+Print Assumptions C02_executed_propagate_is_theorem_propagate.
+Print Assumptions C02_executed_spec_is_theorem_spec.
+Print Assumptions C02_executed_sequence_is_theorem_sequence.
+Print Assumptions C02_executed_step_is_theorem_step.
